@@ -16,8 +16,10 @@ from mc.script import refine, tighten_fully, site_of, G
 ID = 'C11'
 LEVEL = 'model_checking'
 CASE_TIMEOUT = 20
-RULE = ('all ordered string pairs over {a,b} up to length 6 (8 thorough) and {a,b,c} up to 4 (5), plus p.x.s vs p.y.s '
-        'with |p|,|s| <= 3; distinct = distinct (kept, removed, inserted) triple with the kept subsequence')
+LONG_TIMEOUT = 3600
+RULE = ('all ordered string pairs over {a,b} up to length 6 (8 thorough), {a,b,c} up to 4 (5), two 2-byte letters up to 4 (5), '
+        '{ASCII, CJK, astral} up to 3 (4); p.x.s vs p.y.s with |p|,|s| <= 3; a^n.tail vs a short string for n around 2**8 '
+        '(thorough: and 2**16), both directions; distinct = distinct (kept, removed, inserted) triple with the kept subsequence')
 ASSUMPTIONS = ['"sampled beyond" in the quantifier is sampling and is not done', 'reference: textbook LCS table']
 MANIFEST = {
     'technique': 'bounded-exhaustive enumeration of string pairs on the real code against a reference LCS table',
@@ -41,6 +43,10 @@ def lcs(a, b):
     return t[len(a)][len(b)]
 
 
+def sh(s):
+    return repr(s) if len(s) <= 60 else f'{s[:16]!r}..(length {len(s)})..{s[-16:]!r}'
+
+
 def is_subseq(s, t):
     it = iter(t)
     return all(c in it for c in s)
@@ -53,6 +59,22 @@ def cases(tier):
         ss = list(strings(alphabet, maxlen))
         for a in ss:
             for b in ss:
+                if (a, b) not in seen:
+                    seen.add((a, b))
+                    yield a, b
+    # characters that are longer than one byte / one UTF-16 unit (a size measured in bytes must not leak into costs)
+    for alphabet, maxlen in (('\u00e9\u00fc', 4 if q else 5), ('a\u65e5\U0001F600', 3 if q else 4)):
+        ss = list(strings(alphabet, maxlen))
+        for a in ss:
+            for b in ss:
+                if (a, b) not in seen:
+                    seen.add((a, b))
+                    yield a, b
+    # one symbol repeated up to just around an accumulator boundary (8 bits; thorough: 16 bits), then a short tail
+    tails = (('cb', 'cd'), ('c', 'c'), ('bc', 'cb'), ('', 'a'), ('b', ''))
+    for n in (253, 254, 255, 256, 257) + (() if q else (65534, 65535, 65536)):
+        for tail, other in tails:
+            for a, b in (('a' * n + tail, other), (other, 'a' * n + tail)):
                 if (a, b) not in seen:
                     seen.add((a, b))
                     yield a, b
@@ -140,30 +162,30 @@ def render_view(a, b):
 def evaluate(pair):
     a, b = pair
     try:
-        with time_limit(CASE_TIMEOUT):
+        with time_limit(CASE_TIMEOUT if len(a) + len(b) < 2000 else LONG_TIMEOUT):
             L = lcs(a, b)
             ka, kb, rem, ins, cost = script_view(a, b)
             if ka != kb or not is_subseq(ka, a) or not is_subseq(kb, b):
                 return {'key': 'kept_characters_not_a_common_subsequence @ StringNode.edits script',
-                        'detail': f'{a!r} -> {b!r}: kept {ka!r}/{kb!r}'}, None
+                        'detail': f'{sh(a)} -> {sh(b)}: kept {sh(ka)}/{sh(kb)}'}, None
             if len(ka) != L or rem + ins != len(a) + len(b) - 2 * L:
                 shape = 'one side has one character' if min(len(a), len(b)) == 1 else 'general'
                 return {'key': f'not_minimal @ StringNode.edits script : {shape}',
-                        'detail': f'{a!r} -> {b!r}: kept {len(ka)} (LCS {L}), removed {rem}, inserted {ins}'}, None
+                        'detail': f'{sh(a)} -> {sh(b)}: kept {len(ka)} (LCS {L}), removed {rem}, inserted {ins}'}, None
             kept, r, i = render_view(a, b)
             if not is_subseq(kept, a) or not is_subseq(kept, b) or len(r) + len(kept) != len(a) or len(i) + len(kept) != len(b):
                 return {'key': 'rendered_marks_inconsistent @ StringFormatter',
-                        'detail': f'{a!r} -> {b!r}: kept {kept!r} removed {r!r} inserted {i!r}'}, None
+                        'detail': f'{sh(a)} -> {sh(b)}: kept {sh(kept)} removed {sh(r)} inserted {sh(i)}'}, None
             if len(kept) != L:
-                return {'key': 'not_minimal @ rendered marks', 'detail': f'{a!r} -> {b!r}: kept {kept!r}, LCS {L}'}, None
+                return {'key': 'not_minimal @ rendered marks', 'detail': f'{sh(a)} -> {sh(b)}: kept {sh(kept)}, LCS {L}'}, None
             return None, h((ka, rem, ins))
     except Misspelt as m:
-        return {'key': 'script_does_not_spell_the_strings @ EditDistance.edits', 'detail': f'{a!r} -> {b!r}: {m}'}, None
+        return {'key': 'script_does_not_spell_the_strings @ EditDistance.edits', 'detail': f'{sh(a)} -> {sh(b)}: {m}'}, None
     except CaseTimeout:
-        return {'key': 'timeout @ string diff', 'detail': f'{a!r} -> {b!r}'}, None
+        return {'key': 'timeout @ string diff', 'detail': f'{sh(a)} -> {sh(b)}'}, None
     except Exception as ex:  # noqa
         import traceback
-        return {'key': f'exception {type(ex).__name__} @ {site_of(ex)} : string diff', 'detail': f'{a!r} -> {b!r}\n' + traceback.format_exc()[-1000:]}, None
+        return {'key': f'exception {type(ex).__name__} @ {site_of(ex)} : string diff', 'detail': f'{sh(a)} -> {sh(b)}\n' + traceback.format_exc()[-1000:]}, None
 
 
 def _shard(i, n, tier, payload):
